@@ -102,7 +102,8 @@ def check(ctx):
     for bi, si, t in node_accepts:
         # the element count of the decoded array is the atom; `.len()`, the slice length operator, `is_empty()` of the tail,
         # `split_first()` / `first()` presence and slice patterns are all derived from it
-        if len(arrays) != 1 or (lens and {len_base(x) for x in lens} != {arrays[0]}):
+        lens = [x for x in lens if len_base(x) == arrays[0]] if len(arrays) == 1 else lens      # lengths of tails etc. follow from the atom
+        if len(arrays) != 1:
             ctx.fail('C06.1', ctx.site(b, bi, si), 'no (single) element-count test found before the node accept exit', key='C06.1|nolen')
             continue
         verdicts = {}
